@@ -171,6 +171,9 @@ def part_lagrange(rep, rng, drv, tier, A, cases=None):
             m = len(xs)
             ys, sy = gen_values(rng, xs)
             qs = gen_queries(rng, xs, 4 if m > 12 else 8)
+            if all(float(x).is_integer() for x in xs):
+                # integral nodes: two integral non-node queries just outside the node range (judged in every container)
+                qs = list(qs) + [q for q in (float(min(xs) - 3), float(max(xs) + 2)) if q not in xs]
             perm = list(range(m))
             rng.shuffle(perm)
             cases.append((xs, ys, qs, perm, sx, sy))
@@ -192,6 +195,24 @@ def part_lagrange(rep, rng, drv, tier, A, cases=None):
                 violate(rep, what="lagrange_interpolate raised on distinct finite nodes", error=repr(e), input=inp,
                             call="opda.approximation.lagrange_interpolate(xs, ys)")
                 continue
+            # the same nodes in another container: integral nodes as a list of Python ints / an integer ndarray of any width that
+            # holds them (differences and their products are the library's arithmetic); queries: the same float array, and the
+            # integral queries as a list of Python ints
+            implc, labelc = None, None
+            if all(float(x).is_integer() and abs(x) < 2 ** 62 for x in xs):
+                conts = C.number_containers(list(xs), C.rng_for("C18:nodes:" + inp["xs"][0] + str(m), 0), allow_float32=False, k=1)
+                if conts:
+                    labelc, obj = conts[0]
+                    rep.count("lagr_node_container=" + labelc)
+                    try:
+                        pc = A.lagrange_interpolate(obj, ys)
+                        implc = np.asarray(pc(np.array(qs)), dtype=float)
+                        qi = [q for q in qs if float(q).is_integer()]
+                        impli = dict(zip(qi, np.asarray(pc([int(q) for q in qi]), dtype=float))) if qi else {}
+                    except Exception as e:  # noqa: BLE001
+                        violate(rep, what=f"lagrange_interpolate raised on integral nodes given as {labelc} (the same numbers as floats are accepted)",
+                                error=repr(e), input=dict(inp, node_container=labelc), call="opda.approximation.lagrange_interpolate(xs, ys)")
+                        implc, labelc = None, None
             # usage axes: scalar queries next to nodes; results kept across calls of the same callable (after the array
             # evaluations above, so that those are what they always were)
             near, ints, pool, plans = usage_queries(xs, inp)
@@ -210,9 +231,9 @@ def part_lagrange(rep, rng, drv, tier, A, cases=None):
             if x not in qs[n_main:]:
                 qs.append(x)
         reqs.append(("approx.lagr", "%s %s %s" % (C.flist(xs), C.flist(ys), C.flist(qs))))
-        meta.append((inp, xs, ys, qs, impl, implp, perm, n_main, scal, hist))
+        meta.append((inp, xs, ys, qs, impl, implp, perm, n_main, scal, hist, (implc, impli, labelc) if implc is not None else None))
     replies = drv.run(reqs)
-    for (inp, xs, ys, qs, impl, implp, perm, n_main, scal, hist), r in zip(meta, replies):
+    for (inp, xs, ys, qs, impl, implp, perm, n_main, scal, hist, contv), r in zip(meta, replies):
         if r is None:
             rep.disagree(op="lagr", note="model rejected a valid node set", input=inp)
             continue
@@ -223,14 +244,19 @@ def part_lagrange(rep, rng, drv, tier, A, cases=None):
             if ev != ls:
                 rep.disagree(op="lagr", note="model: barycentric form and Lagrange sum differ (theorem broken?)", input=inp,
                              x=C.fhex(x))
-            for tag, val in (("", impl[j]), ("perm", implp[j])):
+            variants = [("", impl[j]), ("perm", implp[j])]
+            if contv is not None:
+                variants.append(("nodes given as " + contv[2], contv[0][j]))
+                if x in contv[1]:
+                    variants.append(("nodes given as " + contv[2] + ", query as a list of Python ints", contv[1][x]))
+            for tag, val in variants:
                 val = float(val)
                 rep.case(("lagr" + tag, tuple(inp["xs"]), tuple(inp["ys"]), x),
                          sample=dict(op="lagrange_interpolate" + ("(permuted nodes)" if tag else ""), xs=xs, ys=ys, x=x,
                                      exact=float(ev), impl=val, tol=float(REL * la)))
                 if x in node_val:
                     if not (val == node_val[x]) or Fr(node_val[x]) != ev:
-                        violate(rep, what="interpolant is not exact at a node" + (" (permuted node order)" if tag else ""),
+                        violate(rep, what="interpolant is not exact at a node" + ((" (permuted node order)" if tag == "perm" else f" ({tag})") if tag else ""),
                                     input=dict(inp, x=C.fhex(x), perm=perm if tag else None),
                                     expected=node_val[x], observed=val,
                                     call="opda.approximation.lagrange_interpolate(xs, ys)(x)")
@@ -238,8 +264,8 @@ def part_lagrange(rep, rng, drv, tier, A, cases=None):
                     gap = min(abs(x - xj) for xj in xs)
                     violate(rep, finding_key="C18-lagrange-subnormal-gap" if 0.0 < gap < SUBNORMAL else None,
                                 what="interpolant differs from the exact rational interpolant by more than "
-                                     "1e-13*sum_j|y_j l_j(x)|" + (" (permuted node order)" if tag else ""),
-                                input=dict(inp, x=C.fhex(x), perm=perm if tag else None), expected=float(ev), observed=val,
+                                     "1e-13*sum_j|y_j l_j(x)|" + ((" (permuted node order)" if tag == "perm" else f" ({tag})") if tag else ""),
+                                input=dict(inp, x=C.fhex(x), perm=perm if tag == "perm" else None, node_container=contv[2] if (contv and tag.startswith("nodes")) else None), expected=float(ev), observed=val,
                                 tolerance=float(REL * la), call="opda.approximation.lagrange_interpolate(xs, ys)(x)")
 
 
